@@ -9,10 +9,10 @@ PROPS_FILES = ['Props/Properties_C13.v']
 THEOREMS = ['C13_exists', 'C13_exact', 'C13_confined', 'C13_bounce_line', 'C13_checker_sound', 'C13_model_passes_checker',
             'C13_reply', 'C13_reply_exact', 'C13_model_passes_rcpt_checker',
             'C13_cdb_safe', 'C13_cdb_terminates', 'C13_vget_safe', 'C13_cdb_lookup', 'C13_cdb_make_wf', 'C13_vget_found',
-            'C13_exists_file', 'C13_confined_file', 'C13_ds_outcome', 'C13_ds_no_leak', 'C13_ds_ok']
+            'C13_exists_file', 'C13_confined_file', 'C13_ds_outcome', 'C13_ds_no_leak', 'C13_ds_ok', 'C13_reply_literal']
 SHRINK_FROM = 3      # keep users/cdb and the domain of a failing case, shrink layout / bounce / local part / tail
 ENGINES = [dict(name='vpop', c_sources=['vpop_h.c'], extract='Extract/Extract_vpop.v', driver='vpop_driver.ml',
-                glue=('glue.ml', 'glue_z.ml'), accepts=lambda c: c[:3] in ('c1 ', 'c2 ', 'c3 ')),
+                glue=('glue.ml', 'glue_z.ml'), accepts=lambda c: c[:3] in ('c1 ', 'c2 ', 'c3 ', 'c4 ')),
            dict(name='cdb', c_sources=['cdb_h.c'], extract='Extract/Extract_cdb.v', driver='cdb_driver.ml',
                 glue=('glue.ml', 'glue_z.ml'), accepts=lambda c: c[:3] in ('d1 ', 'd2 ', 'a1 '))]
 RULE = ('c1 cases = user_exists() on (users/cdb records, domain, domain directory layout, control/vpopbounce, local part, bytes following the local '
@@ -223,11 +223,47 @@ def gen_seq(rng):
     return ' '.join(['c3', R.hx(cdb(recs)), R.hx(enc(ds)), R.hx(lay(layout)), R.hx(b'' if bounce is None else b'b' + bounce), R.hx(enc(ls)), '-'])
 
 
+V6 = [(b'::1', b'IPv6:::1'), (b'fe80::a', b'IPv6:fe80::A'), (b'fe80::a', b'IPv6:FE80::a'), (b'2001:db8::1', b'IPv6:2001:DB8::1'),
+      (b'2001:db8::1', b'IPv6:2001:db8::1'), (b'::ffff:10.0.0.1', b'IPv6:::ffff:10.0.0.1')]
+
+
+def gen_literal(rng):
+    """c4: RCPT TO:<local@[ip]>: the literal is / is not the local address of the connection; liphost in users/cdb or not"""
+    liphost = rng.choice([d for d in DOMS if d != b'x.y'])
+    for _ in range(50):
+        local = gen_local(rng)
+        if local and all(c in UNQUOTED for c in local):
+            break
+    else:
+        local = b'user'
+    local = randcase(rng, local)
+    k = rng.random()
+    if k < 0.4:
+        ip = b'%d.%d.%d.%d' % tuple(rng.choice([0, 1, 10, 127, 192, 255]) for _ in range(4))
+        localip, iptext = ip, ip
+    elif k < 0.6:
+        localip = b'10.0.0.1'
+        iptext = rng.choice([b'10.0.0.2', b'10.0.0.10', b'10.0.0.', b'1.0.0.1', b'10.0.0.11', b'110.0.0.1'])
+        if iptext.endswith(b'.'):
+            iptext += b'1'
+    elif k < 0.9:
+        localip, iptext = rng.choice(V6)
+        if rng.random() < 0.3:
+            localip = rng.choice(V6)[0]
+    else:
+        localip, iptext = b'::ffff:10.0.0.1', b'10.0.0.1'
+    recs = [(rng.choice('dDmf'), d) for d in DOMS if d != liphost and rng.random() < 0.3]
+    if rng.random() < 0.85:
+        recs.append((rng.choice('ddddDmf'), liphost))
+    bounce = rng.choice([None, b'/bounce\n'])
+    return case(recs, liphost, gen_layout(rng, local.lower(), b'@[' + iptext.lower() + b']', bounce), bounce, local, localip + b'\0' + iptext).replace('c1 ', 'c4 ', 1)
+
+
 def gen_cases(engine, rng, tier):
     if engine == 'cdb':
         return c13_cdbgen.gen_cases(rng, tier)
     n = 2200 if tier == 'quick' else 40000
-    out = [gen_rcpt(rng) for _ in range(n // 4)] + [gen_seq(rng) for _ in range(n // 8)]
+    out = [gen_rcpt(rng) for _ in range(n // 4)] + [gen_seq(rng) for _ in range(n // 8)] + [gen_literal(rng) for _ in range(n // 10)]
     for i in range(n):
         dom = rng.choice(DOMS)
         local = gen_local(rng)
@@ -260,8 +296,12 @@ def _rc(c_out):
 
 
 def nontrivial(case, c_out):
+    if case[:3] in ('d1 ', 'd2 ', 'a1 '):
+        return c_out.startswith('F ') or c_out.startswith('1 ') or c_out.startswith('N 22') or c_out.startswith('-') or case.startswith('a1 ')
     r = _rc(c_out)
-    if case.startswith('c2 '):
+    if case.startswith('c3 '):
+        return ',' in c_out
+    if case.startswith('c2 ') or case.startswith('c4 '):
         return r is not None and len(c_out.split()) >= 4
     return r is not None and ((r > 0 and r != 5) or len(c_out.split()) >= 5)
 
@@ -269,9 +309,24 @@ def nontrivial(case, c_out):
 def distribution(results):
     d = {}
     for r in results:
+        op = r['case'][:2]
+        if op in ('d1', 'd2', 'a1'):
+            w = r['c'].split()
+            if op == 'd1':
+                k = 'cdb_seek_' + ('found' if w[:1] == ['F'] else 'einval' if w == ['N', '22'] else 'notfound' if w == ['N', '0'] else 'other')
+            elif op == 'd2':
+                k = 'cdb_vget_' + ('path' if w[:1] == ['1'] else 'notfound' if w[:1] == ['0'] else 'error' if w and w[0].startswith('-') else 'other')
+            else:
+                k = 'cdb_make'
+            d[k] = d.get(k, 0) + 1
+            continue
         rc = _rc(r['c'])
         k = 'crash' if rc is None else ('rc%d' % rc if rc >= 0 else 'error')
-        if r['case'].startswith('c2 '):
+        if r['case'].startswith('c3 '):
+            k = 'reuse_sequences'
+        elif r['case'].startswith('c4 '):
+            k = 'literal_' + ('crash' if rc is None else {0: 'accepted', -1: 'refused550'}.get(rc, 'error'))
+        elif r['case'].startswith('c2 '):
             k = 'rcpt_' + ('crash' if rc is None else {0: 'accepted', -1: 'refused550'}.get(rc, 'error'))
         d[k] = d.get(k, 0) + 1
         f = r['case'].split()
